@@ -2300,8 +2300,10 @@ GRcreate(int32 grid, const char *name, int32 ncomp, int32 nt, int32 il, int32 di
         dimsizes == NULL || dimsizes[0] <= 0 || dimsizes[1] <= 0)
         HGOTO_ERROR(DFE_ARGS, FAIL);
 
-    /* the image name is stored as the name of the image's vgroup, whose length field has 16 bits */
-    if (strlen(name) > UINT16_MAX)
+    /* GRgetiminfo copies the name into the caller's buffer without a length argument, and every caller (the tools, the
+       tests, the examples) gives it char name[H4_MAX_GR_NAME]: a longer name could never be read back safely
+       (the name is also the name of the image's vgroup, whose length field has 16 bits) */
+    if (strlen(name) >= H4_MAX_GR_NAME)
         HGOTO_ERROR(DFE_ARGS, FAIL);
 
     /* locate GR's object in hash table */
